@@ -204,8 +204,15 @@ def generate(rng, tier):
     return [gen_pair(rng) if rng.random() < 0.85 else gen_reject(rng) for _ in range(n)]
 
 
+WIDEN = 1                  # widened search: one more generated batch + a budgeted neighbourhood
+_MUTATE_BUDGET = [40]
+
+
 def mutate_case(rng, case):
-    return gen_pair(rng)
+    if _MUTATE_BUDGET[0] <= 0:
+        return {"skip": True}
+    _MUTATE_BUDGET[0] -= 1
+    return gen_reject(rng) if case.get("rel", "").startswith("reject:") else gen_pair(rng)
 
 
 # ---------------------------------------------------------------- implementation driver
@@ -218,6 +225,8 @@ def _arg(x):
 
 def impl(case):
     import circuitgraph as cg
+    if case.get("skip"):
+        return {"skip": True}
     c0 = lib.build_circuit(case["c0"])
     c1 = lib.build_circuit(case["c1"]) if case["c1"] is not None else None
     S, s_order = _arg(case["S"])
@@ -239,6 +248,8 @@ EXN = {"ValueError", "KeyError", "IndexError", "NotImplementedError", "StopItera
 
 
 def to_coq(case, obs):
+    if obs.get("skip"):
+        return None
     c1 = "None" if case["c1"] is None else "(Some %s)" % ccirc(case["c1"])
     s = "None" if obs["S"] is None else "(Some %s)" % csl(obs["S"])
     e = "None" if obs["E"] is None else "(Some %s)" % csl(obs["E"])
